@@ -113,6 +113,9 @@ def run(ctx, out):
                 lines.append("r%d rules iterate=0 then=0 advanced=1 FOCUS %s SHAPES %s SG %s DG %s RX %d %s %s %s" % (
                     i, wire.terms([]), wire.terms([]), wire.graph(sg), wire.graph(dg), len(rx), rx_toks, rulegen.con_tokens(gen.constructs), adv))
     replies = ctx.driver.ask(lines)
+    for k_, (sg_, dg_) in enumerate(stale_function_cases()):
+        out.evaluations += 1
+        rules_then_validate(out, sg_, dg_, vcase.describe(sg_, dg_, {"advanced": True}, label="stale-function:%d" % k_))
     for i, (sg, dg, gen) in enumerate(cases):
         entry = prepared[i]
         out.evaluations += 2
@@ -191,7 +194,72 @@ def run(ctx, out):
                 if code_r[1] - c15.tset(dg):
                     out.nontrivial.add(i)
             out.count("rules_case")
+            # one advanced run = rules, then validation of the expanded graph: the functions answer for the graph as it is when they
+            # are called (from a rule, and again from a constraint after later rules have added triples)
+            rules_then_validate(out, sg, dg, case)
         out.sample({"functions": len(gen.fns), "targets": len(gen.target_decls), "rules": has_rules})
+
+
+def rules_then_validate(out, sg, dg, case):
+    one = vcase.run_code(sg, dg, {"advanced": True})
+    try:
+        expanded = pyshacl.shacl_rules(dg, shacl_graph=sg, advanced=True)
+    except Exception as e:  # noqa
+        expanded = None
+        two = ("err", exc_detail(e))
+    if expanded is not None:
+        norules = Graph()
+        for t in sg:
+            if t[1] != SH.rule:
+                norules.add(t)
+        two = vcase.run_code(norules, expanded, {"advanced": True})
+    out.count("rules_then_validate:" + (one[1] if one[0] == "err" else "report"))
+    if one[0] != two[0] or (one[0] == "err" and one[1].split(":")[0] != two[1].split(":")[0]):
+        out.b_fail.append({"signature": "C17:rules-then-validate:outcome-differs", "case": case, "one_run": one[:2], "two_steps": two[:2]})
+    elif one[0] == "ok":
+        dms = vcase.declared_msg_shapes(sg)
+        a, b = vcase.multiset(one[2], dms, False), vcase.multiset(two[2], dms, False)
+        if a != b or one[1] != two[1]:
+            out.b_fail.append({"signature": "C17:rules-then-validate:results-differ", "case": case,
+                               "only_one_run": list((a - b).elements())[:3], "only_two_steps": list((b - a).elements())[:3]})
+
+
+def stale_function_cases():
+    """a function is called from a rule, a later rule changes what it answers, then a constraint calls it with the same arguments"""
+    from rdflib.namespace import XSD
+    out = []
+    for k in range(6):
+        sg, dg = Graph(), Graph()
+        decl = BNode()
+        sg.add((EX.decl, SH.declare, decl)); sg.add((decl, SH.prefix, Literal("ex"))); sg.add((decl, SH.namespace, Literal(str(EX), datatype=XSD.anyURI)))
+        fn, par = EX["marked%d" % k], BNode()
+        sg.add((fn, RDF.type, SH.SPARQLFunction)); sg.add((fn, SH.parameter, par)); sg.add((par, SH.path, EX.op1)); sg.add((fn, SH.prefixes, EX.decl))
+        if k % 2:
+            sg.add((fn, SH.returnType, XSD.boolean)); sg.add((fn, SH.ask, Literal("ASK { $op1 ex:mark true }")))
+        else:
+            sg.add((fn, SH.returnType, XSD.boolean)); sg.add((fn, SH.select, Literal("SELECT (EXISTS { $op1 ex:mark true } AS ?r) WHERE {}")))
+        S = EX["SF%d" % k]
+        sg.add((S, RDF.type, SH.NodeShape)); sg.add((S, SH.targetClass, EX.C0))
+
+        def call():
+            e, l = BNode(), BNode()
+            sg.add((e, fn, l)); sg.add((l, RDF.first, SH.this)); sg.add((l, RDF.rest, RDF.nil))
+            return e
+        r1, r2 = BNode(), BNode()
+        sg.add((S, SH.rule, r1)); sg.add((r1, RDF.type, SH.TripleRule)); sg.add((r1, SH.order, Literal(1)))
+        sg.add((r1, SH.subject, SH.this)); sg.add((r1, SH.predicate, EX.seenMarked)); sg.add((r1, SH.object, call()))
+        sg.add((S, SH.rule, r2)); sg.add((r2, RDF.type, SH.TripleRule)); sg.add((r2, SH.order, Literal(2)))
+        sg.add((r2, SH.subject, SH.this)); sg.add((r2, SH.predicate, EX.mark)); sg.add((r2, SH.object, Literal(True)))
+        if k % 3 == 2:
+            ps = BNode(); sg.add((S, SH.property, ps)); sg.add((ps, SH.path, EX.self)); sg.add((ps, SH.expression, call()))
+            dg.add((NODES[0], EX.self, NODES[0]))
+        else:
+            sg.add((S, SH.expression, call()))
+        dg.add((NODES[0], RDF.type, EX.C0)); dg.add((NODES[1], RDF.type, EX.C0))
+        if k >= 3:
+            dg.add((NODES[1], EX.mark, Literal(True)))
+        out.append((sg, dg))
+    return out
 
 
 def c05_core(ms):
